@@ -1,5 +1,5 @@
 (* Spec for C18: a deque holding the plain front-to-back sequence of an iterator's items,
-   the calls of the property text as operations on it, and histories of such calls over a
+   the calls of the property text (and nth_back) as operations on it, and histories of such calls over a
    pool of iterators (slot 0 is the iterator handed out by the library; [Clone] appends a
    copy of a slot to the pool, so that a history can continue on the clone and on the
    original in any interleaving).
@@ -8,8 +8,10 @@
 From PV.Model Require Export Machine.   (* only the vocabulary: N, lists, lenN *)
 
 (* the calls of the property text; [Count] is [it.clone().count()] (count takes self by
-   value, so the iterator it was called on cannot be observed afterwards) *)
-Inductive op := Next | NextBack | Nth (k : N) | Len | SizeHint | Count | Clone.
+   value, so the iterator it was called on cannot be observed afterwards).
+   [NthBack k] is DoubleEndedIterator::nth_back(k): not named in the property text, but callable on every
+   double-ended iterator the library hands out (it is the mirror image of [Nth]) *)
+Inductive op := Next | NextBack | Nth (k : N) | Len | SizeHint | Count | Clone | NthBack (k : N).
 Definition is_clone (o : op) : bool := match o with Clone => true | _ => false end.
 
 Section Deque.
@@ -27,8 +29,12 @@ Section Deque.
   Definition dq_nth (l : list A) (k : N) : list A * out :=
     if lenN l <=? k then ([], ONone) else dq_next (skipn (N.to_nat k) l).
 
+  (* nth_back k: drop k items from the back, then next_back; an iterator with at most k items is left exhausted *)
+  Definition dq_nth_back (l : list A) (k : N) : list A * out :=
+    if lenN l <=? k then ([], ONone) else dq_next_back (firstn (length l - N.to_nat k) l).
+
   (* [full]: the iterator is double-ended and exact-size (RichIter, imports::Iter, debug::Iter);
-     otherwise next_back and len do not exist and the size hint only has to be a valid bound *)
+     otherwise next_back, nth_back and len do not exist and the size hint only has to be a valid bound *)
   Definition step1 (full : bool) (l : list A) (o : op) : list A * out :=
     match o with
     | Next => dq_next l
@@ -38,6 +44,7 @@ Section Deque.
     | SizeHint => (l, OHint (lenN l) (Some (lenN l)))
     | Count => (l, ONum (lenN l))
     | Clone => (l, OCloned)
+    | NthBack k => if full then dq_nth_back l k else (l, OUnsupported)
     end.
 
   Fixpoint set_nth {B} (i : nat) (x : B) (p : list B) : list B :=
